@@ -361,7 +361,18 @@ def ord3_link(prefixes):
     return dict(resname=["A", "B", "C", "D"], inter={"angles": [I([p + "BB" for p in prefixes], ["2", "1" + par, "4" + par])]})
 
 
+# a link that rewrites an attribute another link selects by (selection is by the attributes of the block, whatever links did before)
+EXTRA_LINKS = {
+    "repl_type": dict(resname=["A", "B", "C", "D"], atoms={"+BB": {"replace": {"atype": "ZZ"}}},
+                      inter={"bonds": [I(["BB", "+BB"], ["1", "0.48", "480"])]}),
+    "sel_type": dict(resname=["A", "B", "C", "D"], atoms={"+BB": {"atype": "P1"}},
+                     inter={"angles": [I(["BB", "+BB", "++BB"], ["2", "140", "14"])]}),
+}
+
+
 def get_link(name):
+    if name in EXTRA_LINKS:
+        return EXTRA_LINKS[name]
     if name.startswith("ord3:"):
         return ord3_link(name[5:].split(","))
     if name.startswith("cmp:"):
